@@ -153,7 +153,7 @@ CHECKS = {
     'C19': dict(
         level='model_checking',
         technique='symbolic execution of the real x86 assembler on pairs of spellings of one line with shared symbolic numbers; candidate-set equality proved per joint path (z3)',
-        text='For each line class and each respelling (letter case, white space, optional %, st vs st(0), negative spelling and n + k*2^32, reordered memory terms, displacement outside brackets, AT&T transliteration; decimal-vs-hexadecimal digit strings are NOT covered: the digit string -> integer step is where the symbolic number is substituted) both spellings go through the real parser and encoder '
+        text='For each line class and each respelling (letter case, white space, optional %, st vs st(0), negative spelling and n + k*2^32, reordered memory terms, displacement outside brackets, AT&T transliteration, hexadecimal spellings 0x / 0X with lower / upper case digits of the placeholder numeral, which the real lexer converts before it is mapped back to the symbolic number) both spellings go through the real parser and encoder '
              'with the SAME symbolic numbers; on every joint path the two candidate lists must be equal as sets of byte strings for all number values.',
         note='Trusted: z3, proxies, the respelling generator (vf/checks/c19.py). Bounds: <= 3 operands, numbers in [0, 2^32), SIB families listed in evidence.',
         design='5/C19', engine='E2'),
